@@ -85,6 +85,13 @@ RandVector(k) ==
     ELSE IF k >= 12 /\ k <= 19 THEN   \* k - 11 unusable draws in a row (all zero), then usable octets: still a number in range, however long it takes
       << Step("gen_random", "C09", FALSE, [n |-> 1, rand |-> [mode |-> "replay", stream |-> Cat(<< FillT("zero", 256 * (k - 11), 0), FillT("seeded", 1024, k) >>)]],
               [panic |-> FALSE, err |-> FALSE, inrange |-> TRUE]) >>
+    ELSE IF k >= 28 THEN    \* a first draw just below the lower bound 2^128 (2^128 - 1, 2^64, 2^64 - 1, 2^127): not used, the next draw is
+      LET low == CASE k = 28 -> Cat(<< FillT("zero", 240, 0), FillT("ff", 16, 0) >>)
+                   [] k = 29 -> Cat(<< FillT("zero", 247, 0), Lit(<< 1 >>), FillT("zero", 8, 0) >>)
+                   [] k = 30 -> Cat(<< FillT("zero", 248, 0), FillT("ff", 8, 0) >>)
+                   [] OTHER -> Cat(<< FillT("zero", 240, 0), Lit(<< 128 >>), FillT("zero", 15, 0) >>) IN
+      << Step("gen_random", "C09", FALSE, [n |-> 1, rand |-> [mode |-> "replay", stream |-> Cat(<< low, FillT("seeded", 1024, k) >>)]],
+              [panic |-> FALSE, err |-> FALSE, inrange |-> TRUE]) >>
     ELSE IF k >= 20 THEN    \* k - 19 unusable draws in a row, then the source fails: an error, never one of the unusable numbers
       << Step("gen_random", "C09", FALSE, [n |-> 1, rand |-> [mode |-> "replay", stream |-> FillT("zero", 256 * (k - 19), 0), failat |-> k - 19]],
               [panic |-> FALSE, err |-> TRUE, hasnum |-> FALSE, faultok |-> TRUE]) >>
@@ -94,7 +101,7 @@ RandVector(k) ==
 
 Init == stage = 0 /\ g = 0 /\ xi = 0 /\ yi = 0
 Next == \/ stage = 0 /\ stage' = 1 /\ g' \in {2, 14} /\ xi' \in 1..NExp /\ yi' = 0
-        \/ stage = 0 /\ stage' = 2 /\ g' = 0 /\ xi' \in 0..27 /\ yi' = 0
+        \/ stage = 0 /\ stage' = 2 /\ g' = 0 /\ xi' \in 0..31 /\ yi' = 0
         \/ stage = 0 /\ stage' = 2 /\ g' \in {2, 14} /\ xi' \in 100..103 /\ yi' = 0
         \/ stage = 1 /\ stage' = 2 /\ yi' \in 1..NPeer /\ UNCHANGED << g, xi >>
         \/ stage = 2 /\ UNCHANGED << stage, g, xi, yi >>
